@@ -870,6 +870,27 @@ static void build(vf::Plan &plan, const vf::Opts &o)
                    });
     }
     {
+        // calls without arguments: the format string is all there is (escapes still have to be reduced, a lone brace still
+        // has to be refused - by every sink alike)
+        static const std::vector<std::string> Z = {"a", "{{", "}}", "\xC3\xA9", "{", "}", " ", "{}"};
+        const unsigned ZL = th ? 6 : 5;
+        plan.stage(strf("format: no arguments, strings over {a,{{,}},e-acute,{,},space,{}}^<=%u, all sinks", ZL), vf::seq_count(Z.size(), ZL),
+                   [ZL](uint64_t i, Ctx &c) {
+                       std::vector<unsigned> d;
+                       vf::seq_decode(i, Z.size(), ZL, d);
+                       std::string f;
+                       for (unsigned k : d) f += Z[k];
+                       run_case(c, f);
+                   },
+                   [ZL](uint64_t i) {
+                       std::vector<unsigned> d;
+                       vf::seq_decode(i, Z.size(), ZL, d);
+                       std::string f;
+                       for (unsigned k : d) f += Z[k];
+                       return show(f, "(none)");
+                   });
+    }
+    {
         // long output: one multi-byte character at every byte offset of a long ASCII run (crossing every power-of-two
         // block size a sink might work in), as a string argument, as a literal of the format string, and as an
         // ST::string inserted into the four stream types
